@@ -13,6 +13,7 @@ import pysmt.operators as op
 from pysmt.environment import Environment, push_env, pop_env
 from pysmt.smtlib.printers import to_smtlib
 from pysmt.smtlib.script import smtlibscript_from_formula
+import pysmt.logics
 from pysmt.exceptions import NoLogicAvailableError
 from ..core import profiles as P
 from ..core import termio, smtref
@@ -358,9 +359,124 @@ def run(ctx):
     ps = parts(ctx)
     ctx.coverage["parts"] = [{"name": p["name"], "depth": p["depth"]} for p in ps]
     sweep(ctx, ps, make)
+    if not getattr(ctx, "parts", None) or "multi-assert" in ctx.parts:
+        ctx.pmap(run_multi_shard, [(i, 32, ctx.quick) for i in range(32)])
+        ctx.coverage["parts"].append({"name": "multi-assert", "depth": 2})
+
+
+# ---------------------------------------------------------------------------------------
+# scripts with several assertions: one printer object serves all commands of a script
+
+def _multi_pools(env):
+    from ..core import termgen
+    prof = names_profile(env)
+    lv = termgen.levels(prof, 1)
+    ints = [t for L in lv for t in L.get(INT, [])]
+    bools = [t for L in lv for t in L.get(BOOL, [])]
+    m = env.formula_manager
+    dup = [o for o in prof.ops if o.name == "dup"][0]
+    shared = [dup.build(m, a) for a in ints if not a.is_ite()]      # every one needs a let in DAG form
+    first = shared + [b for b in bools if b.is_symbol()]
+    second = bools + shared
+    return first, second
+
+
+def multi_verdict(env, fs, cmemo):
+    """None or (kind, msg): the script  declare*; assert f1; ...; assert fn  in tree and DAG form"""
+    import pysmt.smtlib.commands as smtcmd
+    from pysmt.smtlib.script import SmtLibScript
+    syms = {}
+    for f in fs:
+        syms.update(free_symbols(f))
+    m = env.formula_manager
+    hasq = any(_has_q(f) for f in fs)
+    for daggify in (False, True):
+        sc = SmtLibScript()
+        sc.add(name=smtcmd.SET_LOGIC, args=[pysmt.logics.LIA if hasq else pysmt.logics.QF_LIA])
+        for n in sorted(syms):
+            sc.add(name=smtcmd.DECLARE_FUN, args=[m.get_symbol(n)])
+        for f in fs:
+            sc.add(name=smtcmd.ASSERT, args=[f])
+        sc.add(name=smtcmd.CHECK_SAT, args=[])
+        buf = StringIO()
+        try:
+            sc.serialize(buf, daggify=daggify)
+        except Exception as e:
+            return ("exception", "serialize(daggify=%s) raised %r" % (daggify, e))
+        text = buf.getvalue()
+        how = "script-dag" if daggify else "script-tree"
+        try:
+            it = smtref.run_script(text)
+            if len(it.assert_log) != len(fs):
+                raise smtref.SmtError("expected %d assertions" % len(fs))
+        except smtref.SmtError as e:
+            return ("ill-formed", "%s output %r is not well-formed SMT-LIB: %s" % (how, text[-200:], e))
+        qd = QDOMS if hasq else None
+        for k, f in enumerate(fs):
+            ff = compile_term(f, cmemo)[1]
+            got_f = it.assert_log[k]
+            for I in interps(syms, None, qd):
+                try:
+                    want = ff(I)
+                except Unconstrained:
+                    continue
+                try:
+                    got = got_f(I)
+                except KeyError as e:
+                    return ("ill-formed", "%s: assertion %d uses %s which is not declared" % (how, k + 1, e))
+                if got != want:
+                    return ("value", "%s: assertion %d of %r evaluates to %r, the formula to %r under %r"
+                            % (how, k + 1, text[-200:], got, want, I))
+    return None
+
+
+def run_multi_shard(args):
+    idx, nsh, quick = args
+    from ..core.runner import Result
+    res = Result()
+    env = Environment()
+    push_env(env)
+    try:
+        first, second = _multi_pools(env)
+        cm = {}
+        n = 0
+        for a in first:
+            for b in second:
+                n += 1
+                if n % nsh != idx:
+                    continue
+                for fs in ((a, b), (b, a)) + (((a, b, a),) if not quick else ()):
+                    res.count("evaluations")
+                    res.count("nontrivial")
+                    res.outcome("multi-assert:%d" % len(fs))
+                    if n % 997 == 0:
+                        res.sample({"part": "multi-assert", "terms": [termio.dump(f) for f in fs]}, limit=1)
+                    v = multi_verdict(env, fs, cm)
+                    if v is not None:
+                        res.violation("multi-assert", "export:script(%d assertions):%s" % (len(fs), v[0]),
+                                      "script of %s: %s" % ([termio.short(termio.dump(f)) for f in fs], v[1]),
+                                      {"part": "multi-assert", "terms": [termio.dump(f) for f in fs]})
+    finally:
+        pop_env()
+    return res
+
+
+def replay_multi(rec):
+    env = Environment()
+    push_env(env)
+    try:
+        fs = tuple(termio.build(env, t) for t in rec["case"]["terms"])
+        v = multi_verdict(env, fs, {})
+        if v is None:
+            return True, "the script of %d assertions is well-formed and each assertion denotes its formula" % len(fs)
+        return False, "script of %d assertions: %s: %s" % (len(fs), v[0], v[1])
+    finally:
+        pop_env()
 
 
 def replay(rec):
+    if "terms" in rec["case"]:
+        return replay_multi(rec)
     env = Environment()
     push_env(env)
     try:
